@@ -8,7 +8,7 @@ from giscanner import ast, gdumpparser
 
 UNIVERSE.register(_ET.Element)
 _asn(_ET)
-_schema(_ET.Element, tag='str', attrib='dict[str]')
+_schema(_ET.Element, tag='str', attrib='dict[str]', text='str?')
 _schema(gdumpparser.GDumpParser, _transformer='Transformer', _namespace='Namespace', _boxed_types='dict[Boxed]',
         _pointer_types='dict[Pointer]', _private_internal_types='dict', _get_type_functions='list[str]',
         _error_quark_functions='list[str]')
@@ -109,3 +109,25 @@ contract(GD + '_add_record_fields',
                                               "isinstance(node.fields[J], ast.Field), not node.fields[J].writable)",
              'C12.instance.untouched_without_record': "implies(not isinstance(rec, ast.Record), node.ctype == old(node.ctype) and node.fields is old(node.fields))",
          })
+
+
+# ---- interface / prerequisite lists: entries that do not resolve are dropped, the others keep their order -----------------
+MT = 'giscanner.maintransformer.MainTransformer.'
+contract('giscanner.transformer.Transformer.resolve_type', params={'self': 'Transformer', 'typeval': 'Type'}, returns='bool',
+         trusted=True, modifies=['typeval.target_giname', 'typeval.target_fundamental', 'typeval.target_foreign'],
+         raises={'ValueError': 'maybe', 'KeyError': 'maybe'},
+         note='resolves the type in place (namespace tables not modelled)')
+contract(MT + '_resolve_and_filter_type_list', params={'self': 'MainTransformer', 'typelist': 'list[Type]'}, returns='list[Type]',
+         props=('C12',), modifies=['*.target_giname', '*.target_fundamental', '*.target_foreign'],
+         raises={'ValueError': 'True', 'KeyError': 'True'},
+         loops={1: {'index': 'I1', 'modifies': ['new_typelist[]', '*.target_giname', '*.target_fundamental', '*.target_foreign'],
+                    'var_types': {'typeval': 'Type', 'resolved': 'bool'},
+                    'invariant': ['len(typelist) == old(len(typelist))']}},
+         ensures={
+             'C12.interfaces.the_given_list_is_not_changed': 'len(typelist) == old(len(typelist))',
+             'C12.interfaces.result_is_a_new_list': 'is_fresh(result)',
+             'C12.interfaces.every_entry_is_resolved_once_in_order':
+                 "all_calls('resolve_type', 'arg_typeval is typelist[local_I1]')",
+         },
+         note='the loop runs over the given list while entries are removed from a copy: `loop1.iter_unchanged` and the frame '
+              'obligations on the list arrays are what forbid filtering the list in place')
